@@ -393,6 +393,8 @@ func racePlan(quick, thorough int) func(string) Plan {
 // ---------------------------------------------------------------------------------------------
 // C03: an index created while writers commit must equal its predicate once they are done
 
+var ixCounters = [3]uint32{1, 16384 + 1, 32768 + 1}
+
 func indexBuildRound(w *W, idx int) {
 	caseID := fmt.Sprintf("E3:index-build-beside-writers:round%d", idx)
 	w.Begin(idx, caseID)
@@ -410,6 +412,10 @@ func indexBuildRound(w *W, idx int) {
 	})
 	var left int32 = 6
 	per := scale(w, 600, 2000)
+	var counted [3]int64
+	for _, off := range ixCounters {
+		c.QueryAt(off, func(r column.Row) error { r.SetInt64("a", 0); return nil })
+	}
 	var commitsDuringBuild int64
 	var building int32
 	var fns []func()
@@ -420,8 +426,16 @@ func indexBuildRound(w *W, idx int) {
 			rng := rngFor(w.Seed, 60, idx, wi)
 			for n := 0; n < per; n++ {
 				c.Query(func(txn *column.Txn) error {
+					// one counted merge into the counter row of a block: column a is the one being indexed, every
+					// committed +1000 must be in the counter at the end (C09), whatever the registry was doing
+					cb := n % 3
+					txn.QueryAt(ixCounters[cb], func(r column.Row) error { r.MergeInt64("a", 1000); return nil })
+					atomic.AddInt64(&counted[cb], 1)
 					for j := 0; j < 6; j++ {
 						off := uint32(rng.Intn(rows))
+						if off == ixCounters[0] || off == ixCounters[1] || off == ixCounters[2] {
+							continue
+						}
 						txn.QueryAt(off, func(r column.Row) error {
 							switch rng.Intn(4) {
 							case 0:
@@ -453,6 +467,10 @@ func indexBuildRound(w *W, idx int) {
 			c.CreateIndex(fmt.Sprintf("neg%d", i), "a", func(r column.Reader) bool { return r.Int() < 0 })
 			c.CreateIndex(fmt.Sprintf("long%d", i), "s", func(r column.Reader) bool { return len(r.String()) > 1 })
 			c.CreateSortIndex(fmt.Sprintf("by_s%d", i), "s")
+			c.CreateIndex("churn", "a", func(r column.Reader) bool { return r.Int() > 2 })
+			c.CreateTrigger("churn_tg", "a", func(column.Reader) {})
+			c.DropIndex("churn")
+			c.DropTrigger("churn_tg")
 			atomic.StoreInt32(&building, 0)
 			built++
 		}
@@ -461,6 +479,15 @@ func indexBuildRound(w *W, idx int) {
 	// quiescent: every index equals its predicate over the current values
 	bad := ""
 	checked := 0
+	for b, off := range ixCounters {
+		c.QueryAt(off, func(r column.Row) error {
+			if v, ok := r.Int64("a"); !ok || v != 1000*atomic.LoadInt64(&counted[b]) {
+				bad = fmt.Sprintf("counter row %d (block %d) of column a, on which indexes were being created and dropped: %d transactions each merged +1000 and committed, the row reads (%d,%v)", off, b, atomic.LoadInt64(&counted[b]), v, ok)
+			}
+			return nil
+		})
+	}
+	w.Stat("stress_counted_merges_beside_index_builds", counted[0]+counted[1]+counted[2])
 	c.Query(func(txn *column.Txn) error {
 		a, s := txn.Int64("a"), txn.String("s")
 		for i := 0; i < built && bad == ""; i++ {
